@@ -59,20 +59,15 @@ func setPropsFromMapRecursive(val reflect.Value, updates map[string]any) (staged
 
 			found = true
 			if fieldVal.Kind() == reflect.Struct {
-				// If the value is a map, it's a nested update
-				if nestedUpdates, ok := value.(map[string]any); ok {
-					nestedStaged, err := setPropsFromMapRecursive(fieldVal.Addr(), nestedUpdates)
-					stagedProps = append(stagedProps, nestedStaged...)
-					if err != nil {
-						return stagedProps, err
-					}
-					break
-				}
-
-				// Check if it's a ConfigProp
+				// A setting (looked at first: a setting is a struct too, and an object given for it
+				// must not be taken for a section of its own)
 				if fieldVal.CanAddr() {
 					fieldAddr := fieldVal.Addr()
 					if prop, ok := fieldAddr.Interface().(StagedConfigProp); ok {
+						if value == nil {
+							// null has no type: it would be read as the zero value (false, "", 0)
+							return stagedProps, fmt.Errorf("null is not a value for '%s'", key)
+						}
 						valueBytes, err := json.Marshal(value)
 						if err != nil {
 							return stagedProps, err
@@ -85,6 +80,17 @@ func setPropsFromMapRecursive(val reflect.Value, updates map[string]any) (staged
 						stagedProps = append(stagedProps, prop)
 						break
 					}
+				}
+
+				// A section: the value has to be an object with its own settings
+				nestedUpdates, ok := value.(map[string]any)
+				if !ok {
+					return stagedProps, fmt.Errorf("'%s' is a section and needs an object, not %T", key, value)
+				}
+				nestedStaged, err := setPropsFromMapRecursive(fieldVal.Addr(), nestedUpdates)
+				stagedProps = append(stagedProps, nestedStaged...)
+				if err != nil {
+					return stagedProps, err
 				}
 			}
 			break
